@@ -108,6 +108,7 @@ func c05RecordSource(rec ssa.Value, req ssa.Value) (string, bool) {
 }
 
 func c05(c *Ctx) {
+	nodeIdExactMatch(c, "R-C05.5")
 	p, r := c.P, c.R
 	r.Rule("R-C05.1", "in tls.GenerateServerCertificates every path to loading the roots, to each x509.CreateCertificate, to the store of the response's ClientState and to every success return passes the true edge of req.SkipVerification or the success edge of verify(record, req) for a record loaded by key ID of the request key or by the request's node ID (constant-phi sensitive: a flag set in the loop and tested after it is followed per incoming edge)")
 	r.Rule("R-C05.2", "a record that fails verification neither authorises nor ends the search: from the failure edge of the verify call inside the node-ID loop no block outside the loop is reachable without passing the loop header; the verify call on a node-set element must be inside a loop")
